@@ -46,6 +46,9 @@ func init() {
 		} {
 			add(map[string]interface{}{"op": "Concat", "shape": c.shape, "ta": c.ta, "ext": c.ext})
 		}
+		// a result of 65536 and of 69000 elements on a fixed pattern (block-wise / parallel copies)
+		add(map[string]interface{}{"op": "Concat", "shape": []int{128, 512}, "ta": 0, "ext": []int{64, 64}, "concrete": true})
+		add(map[string]interface{}{"op": "Concat", "shape": []int{300, 230}, "ta": 1, "ext": []int{100, 30, 100}, "concrete": true})
 		// Slice
 		sshapes := [][]int{{3}, {2, 3}, {3, 1}}
 		if th {
